@@ -79,6 +79,43 @@ func checkMapContract(c *mon.Case, what string, node ipld.Node, probes []string,
 	if int64(pairs) != length {
 		c.Violation("C15|length-vs-pairs", "%s: iteration yielded %d pairs, Length() reports %d", what, pairs, length)
 	}
+	// a consumer that calls Next exactly Length() times without polling Done(), keeps the yielded
+	// nodes and only looks at them afterwards
+	c.Guard("MapIterator (Length() x Next, values inspected afterwards)", func() {
+		it := node.MapIterator()
+		if it == nil {
+			return
+		}
+		type kv struct{ k, v ipld.Node }
+		var kept []kv
+		for i := int64(0); i < length && i < int64(maxYield); i++ {
+			k, v, err := it.Next()
+			if err != nil {
+				c.Violation("C15|iter-error|no-done-polling", "%s: Next #%d of %d failed although Length() entries were promised: %v", what, i+1, length, err)
+				return
+			}
+			kept = append(kept, kv{k, v})
+		}
+		if !it.Done() {
+			c.Violation("C15|not-done", "%s: Done() is false after Length() = %d calls of Next", what, length)
+		}
+		for i, p := range kept {
+			ks, err := p.k.AsString()
+			if err != nil {
+				c.Violation("C15|iter-key", "%s: kept key #%d is not a string: %v", what, i, err)
+				return
+			}
+			cc, err := asCid(p.v)
+			if err != nil || !yielded[ks][cc.String()] {
+				c.Violation("C15|kept-value-changed", "%s: the value node yielded under %q, inspected after the iteration ended, is %v (%v), which the eager pass did not see under that key", what, ks, cc, err)
+				return
+			}
+		}
+		// every key's kept value must be one of the links of that key, and keys must be covered as in the eager pass
+		if len(kept) != pairs {
+			c.Violation("C15|iter-styles-differ", "%s: %d pairs with Done() polling, %d when calling Next Length() times", what, pairs, len(kept))
+		}
+	})
 	// native iterator agrees with the map iterator
 	if ni, isNative := node.(interface{ Iterator() *iterT }); isNative {
 		c.Guard("native Iterator", func() {
